@@ -51,6 +51,19 @@ def stopStr : Stop → String
 /-- text appended to `a` to obtain `b` (outputs only grow) -/
 def delta (a b : List Char) : List Char := b.drop a.length
 
+/-- driver-only: the same state with its stack function rebuilt from a table over the indices a program can
+touch (`St.stacks` is a function; every push wraps it once more, so without this every lookup costs the
+number of steps so far). `idx` must contain every index the program can use. -/
+def collapse {N : Type} (idx : List Nat) (s : St N) : St N :=
+  let tbl := (idx.filterMap (fun i => let v := s.stacks i; if v.isEmpty then none else some (i, v))).toArray
+  { s with stacks := fun i => match tbl.find? (fun x => x.1 == i) with | some x => x.2 | none => [] }
+
+/-- a state whose encoding is longer than this ends a trace with `END cut` (numbers that explode) -/
+def hugeState : Nat := 20000
+
+def cutRec (acc : Array String) (o e : List Char) : Array String :=
+  if o.isEmpty && e.isEmpty then acc else acc.push s!"X O={encText o} E={encText e}"
+
 /-- mode `one`: preloaded program, one record per executed command -/
 partial def traceOne {N : Type} [NumOps N] [ShowNum N] (p : List Cmd) (idx : List Nat) (c : Cfg N) (fuel : Nat)
     (acc : Array String) : Array String :=
@@ -59,9 +72,15 @@ partial def traceOne {N : Type} [NumOps N] [ShowNum N] (p : List Cmd) (idx : Lis
   else match step p c with
     | .error (e, w) =>
       (acc.push s!"X O={encText (delta c.m.2.out w.out)} E={encText (delta c.m.2.err w.err)}").push ("END " ++ stopStr e)
-    | .ok c' =>
+    | .ok c'' =>
+      let c' : Cfg N := ⟨(collapse idx c''.m.1, c''.m.2), c''.loc⟩
+      let st := encState idx c'.m.1
+      if st.length > hugeState then
+        -- the values have exploded: the trace is cut here (same rule in the harness)
+        (cutRec acc (delta c.m.2.out c'.m.2.out) (delta c.m.2.err c'.m.2.err)).push "END cut"
+      else
       traceOne p idx c' (fuel - 1)
-        (acc.push s!"T {c'.loc} {encState idx c'.m.1} O={encText (delta c.m.2.out c'.m.2.out)} E={encText (delta c.m.2.err c'.m.2.err)}")
+        (acc.push s!"T {c'.loc} {st} O={encText (delta c.m.2.out c'.m.2.out)} E={encText (delta c.m.2.err c'.m.2.err)}")
 
 /-- run the commands `p[k..]` one top-level command at a time as `execute` does (push the command,
 loop until control leaves the code entered so far) -/
@@ -70,7 +89,7 @@ partial def execTop {N : Type} [NumOps N] (p : List Cmd) (k : Nat) (c : Cfg N) (
   else if fuel = 0 then none
   else match step (p.take (k + 1)) c with
     | .error e => some (.error e)
-    | .ok c' => execTop p k c' (fuel - 1)
+    | .ok c' => execTop p k ⟨(collapse (candidates p) c'.m.1, c'.m.2), c'.loc⟩ (fuel - 1)
 
 partial def traceInc {N : Type} [NumOps N] [ShowNum N] (p : List Cmd) (idx : List Nat) (k : Nat) (m : M N) (fuel : Nat)
     (acc : Array String) : Array String :=
@@ -93,8 +112,12 @@ partial def traceOneD (p : List Cmd) (idx : List Nat) (s : HyD.State) (pc : Nat)
     | .halted h =>
       (acc.push s!"X O={encText (delta s.out r.1.out)} E={encText (delta s.err r.1.err)}").push ("END " ++ stopStr (HyD.stopOf h))
     | _ =>
+      let r : HyD.State × Nat × HyD.Status := ({ r.1 with stacks := (collapse idx (HyD.toSt r.1)).stacks }, r.2)
+      let st := encState idx (HyD.toSt r.1)
+      if st.length > hugeState then (cutRec acc (delta s.out r.1.out) (delta s.err r.1.err)).push "END cut"
+      else
       traceOneD p idx r.1 r.2.1 (fuel - 1)
-        (acc.push s!"T {r.2.1} {encState idx (HyD.toSt r.1)} O={encText (delta s.out r.1.out)} E={encText (delta s.err r.1.err)}")
+        (acc.push s!"T {r.2.1} {st} O={encText (delta s.out r.1.out)} E={encText (delta s.err r.1.err)}")
 
 def execOp (spec : Bool) (mode prog stdin max : String) : String :=
   let p := decProg prog
